@@ -483,6 +483,7 @@ def main():
     from . import opwire
 
     opwire.add_cases(chk, "C51", thorough)
+    opwire.add_qed_routing(chk, "C51", thorough)
     for sch in ("exponentiated", "expanded"):
         for o in (1, 2, 3, 4):
             for mth in ("ITERATE_EXACT", "ITERATE_EXPANDED", "TRUNCATED", "ORDERED_TRUNCATED"):
